@@ -26,7 +26,16 @@ Inductive expr :=
 | EReqSpace (e : expr)                      (* VarInt::required_space(e) *)
 | ECallLen (m : string) (args : list expr)  (* self.<m>(args), m a *_len method *)
 | EByteOf (en : string) (w i : Z) (e : expr)(* e.to_<en>_bytes()[i], e of width w bytes *)
-| EBytes (en : string) (w : Z) (e : expr).  (* e.to_<en>_bytes() *)
+| EBytes (en : string) (w : Z) (e : expr)   (* e.to_<en>_bytes() *)
+(* readers *)
+| EGet (k : string)                         (* self.trans.read_<k>()? / self.reader.read_<k>().await? *)
+| ERead (m : string)                        (* self.<m>()[.await]? , m a sibling read method *)
+| EVarintR (t : string)                     (* self.read_varint[_async]::<t>()[.await]? *)
+| ETryTType (e : expr)                      (* u8 -> TType (field_type_from_u8 / try_into().map_err(..)) *)
+| ECheckSize (e : expr)                     (* checked_container_size(e, self.trans.len())? *)
+| ESplit (how : string) (e : expr)          (* split_to_checked(self.trans, e)? | self.trans.read_to_string(e)? | read_exact_to_vec(reader, e).await? *)
+| ETuple (es : list expr)                   (* T*Identifier::new(..) / a tuple *)
+| EGetSlice (n : Z).                        (* let mut u = [0; n]; read_to_slice(&mut u)? / read_exact(&mut u).await? *)
 
 Inductive stmt :=
 | SPut (k : string) (e : expr)              (* self.trans[.bytes_mut()].write_<k>(e) *)
@@ -50,12 +59,14 @@ Inductive stmt :=
 | STakePendingV (x : string) (s : list stmt) (sv : expr) (n : list stmt) (nv : expr)
 | SHeaderLen (ax : string) (t id : expr)    (* write_field_header_len!(self, ax, t, id) *)
 | SInsert (e : expr)                        (* self.trans.insert(e) / insert_faststr(e) *)
-| SReturnOk.                                (* return Ok(()) *)
+| SReturnOk                                 (* return Ok(()) *)
+| SLet2 (x y : string) (e : expr)           (* let (x, y) = e *)
+| SFail (kind : string).                    (* return Err(new_protocol_exception(ProtocolExceptionKind::<kind>, ..)) *)
 
 Record prow := mkRow {
   r_proto : string;          (* binary | binary_le | compact *)
-  r_class : string;          (* write | len *)
-  r_flavour : string;        (* bytesmut | linked | any *)
+  r_class : string;          (* write | len | read *)
+  r_flavour : string;        (* bytesmut | linked | any | sync | async *)
   r_method : string;
   r_params : list string;
   r_body : list stmt;
@@ -71,7 +82,11 @@ Fixpoint expr_eqb (a b : expr) {struct a} : bool :=
     | _, _ => false
     end in
   match a, b with
-  | EVar x, EVar y | ESelf x, ESelf y | ENamed x, ENamed y => String.eqb x y
+  | EVar x, EVar y | ESelf x, ESelf y | ENamed x, ENamed y | EGet x, EGet y | ERead x, ERead y | EVarintR x, EVarintR y => String.eqb x y
+  | EGetSlice x, EGetSlice y => Z.eqb x y
+  | ETryTType x, ETryTType y | ECheckSize x, ECheckSize y => expr_eqb x y
+  | ESplit s x, ESplit t y => String.eqb s t && expr_eqb x y
+  | ETuple l1, ETuple l2 => list_eqb l1 l2
   | EK x, EK y => Z.eqb x y
   | ELen x, ELen y | ENot x, ENot y | ECompact x, ECompact y | ECompactU x, ECompactU y
   | EUnwrap x, EUnwrap y | EIsSome x, EIsSome y | EReqSpace x, EReqSpace y => expr_eqb x y
@@ -108,6 +123,8 @@ Fixpoint stmt_eqb (a b : stmt) {struct a} : bool :=
   | SIfV c t tv f fv, SIfV c' t' tv' f' fv' => expr_eqb c c' && list_eqb t t' && expr_eqb tv tv' && list_eqb f f' && expr_eqb fv fv'
   | SPushLast, SPushLast | SPopLast, SPopLast | SPopLastUnwrap, SPopLastUnwrap | SAssertNoPending, SAssertNoPending
   | SPanic, SPanic | SReturnOk, SReturnOk => true
+  | SLet2 x y e, SLet2 x' y' e' => String.eqb x x' && String.eqb y y' && expr_eqb e e'
+  | SFail a', SFail b' => String.eqb a' b'
   | STakePending x s n, STakePending x' s' n' => String.eqb x x' && list_eqb s s' && list_eqb n n'
   | STakePendingV x s sv n nv, STakePendingV x' s' sv' n' nv' =>
       String.eqb x x' && list_eqb s s' && expr_eqb sv sv' && list_eqb n n' && expr_eqb nv nv'
